@@ -58,7 +58,7 @@ def aborted_request(P, rule, kind, s, i, n):
     when the request was really cut short"""
     if n in (13, 34, 89):
         # ... or lets it run out of interpreter stack (a genuine RecursionError half-way through)
-        ec.starved_of_stack(lambda: request(P, rule, kind, s, i), 4 + n % 11)
+        ec.starved_of_stack(lambda: request(P, rule, kind, s, i), {13: 7, 34: 12, 89: 19}[n])
         return True
     return ec.abort_at_call(P, lambda: request(P, rule, kind, s, i), n)
 
